@@ -352,6 +352,62 @@ fn bv_after_resize<const NW: usize>(len0: usize, newlen: usize) -> (BitVector, S
     (bv, Seq { words, len: newlen })
 }
 
+/// A vector of LEN0 bits shortened by K `pop()` calls (and optionally one `push` afterwards).
+fn bv_after_pops<const NW: usize>(len0: usize, pops: usize, push_back: bool) -> (BitVector, Seq<NW>) {
+    let (raw, s0) = Seq::<NW>::make(len0, 0, ALL, NW - 1, ALL, MIX);
+    let mut bv = s0.bitvector(raw);
+    let mut words = s0.words;
+    let mut len = len0;
+    let mut k = 0;
+    while k < pops {
+        let got = bv.pop();
+        len -= 1;
+        let bit = (words[len / 64] >> (len % 64)) & 1 == 1;
+        assert!(got == Some(bit), "pop returned a different bit");
+        words[len / 64] &= !(1u64 << (len % 64));
+        k += 1;
+    }
+    if push_back {
+        let b: bool = vany();
+        let r = bv.push(b);
+        assert!(r.is_ok());
+        forget(r);
+        if b {
+            words[len / 64] |= 1u64 << (len % 64);
+        }
+        len += 1;
+    }
+    (bv, Seq { words, len })
+}
+macro_rules! c04_popped {
+    ($name:ident, $tier:ident, $unwind:literal, $ctor:path, $nw:literal, $len0:literal, $pops:literal, $push:literal) => {
+        zv_harness! {
+            name: $name,
+            prop: "C04",
+            tier: $tier,
+            unwind: $unwind,
+            stubs: [alloc::fmt::format => crate::common::stubs::fmt_format,
+                    std::arch::x86_64::__cpuid_count => crate::common::stubs::cpuid_zero,
+                    zipora::system::cpu_features::get_cpu_features => crate::c04_rankselect::cpu_none],
+            targets: "BitVector::from_raw_bits + BitVector::{pop, push, len, count_ones} + the constructor named by the instance + RankSelectOps::{len,count_ones,count_zeros,rank1,rank0,get}",
+            bounds: "bit vector of LEN0 bits (first and last word symbolic, filler 0x84211248F00F3C5A) shortened by POPS pop() calls, then optionally one push of a symbolic bit (args: constructor, words, LEN0, POPS, push); every 0 <= p <= final length",
+            oracle: "the sequence is the first LEN0-POPS bits (+ the pushed bit): pop returns the removed bit; BitVector's own len/count_ones and the structure's len/count_ones/rank1/rank0/get match the popcount-prefix loop",
+            body: {
+                crate::common::stubs::native_tier(crate::c04_rankselect::cpu_none);
+                let (bv, s) = bv_after_pops::<$nw>($len0, $pops, $push);
+                assert!(bv.len() == s.len && bv.count_ones() == s.ones(), "BitVector after pop");
+                let rs = $ctor(bv);
+                check_rank(&rs, &s);
+                forget(rs);
+            }
+        }
+    };
+}
+c04_popped!(c04_popped_simple_70_3, quick, 8, simple, 2, 70, 3, false);
+c04_popped!(c04_popped_se256_70_3, quick, 8, se256_nosel, 2, 70, 3, false);
+c04_popped!(c04_popped_il_70_2_push, quick, 8, il_nocache, 2, 70, 2, true);
+c04_popped!(c04_popped_se512_130_2_push, thorough, 10, se512_nosel, 3, 130, 2, true);
+
 macro_rules! c04_resized {
     ($name:ident, $tier:ident, $unwind:literal, $ctor:path, $nw:literal, $len0:literal, $newlen:literal) => {
         zv_harness! {
